@@ -379,7 +379,7 @@ func vfC01Judge(k *vfKit, c vfC01Case, states []*vfC01ConnState, evs []vfEvent) 
 func TestVerifC01(t *testing.T) {
 	k := vfNewKit(t, "C01", "c01-auth-gate")
 	defer k.Finish()
-	n := k.N(60, 1500)
+	n := k.N(200, 3000)
 	for i := 0; i < n; i++ {
 		caseID := fmt.Sprintf("c01-%d", i)
 		if rc := k.ReplayCase(); rc != "" && rc != caseID {
